@@ -380,7 +380,12 @@ class Outcomes:
                  'texts': again['preds'].get(p, {}).get('texts'),
                  'trace': json.loads(self.lines[key][0]),
                  'same_trace': len(self.owners[key])}
-      if key in self.executed and v['clause'] != 'placeholder':
+      # Calibration covers the clauses on which SQLite is at least as strict
+      # as the property.  SQLite resolves the names of one WITH list lazily
+      # (a forward reference executes) and ignores comments, so with-order
+      # and placeholder verdicts stand on their own.
+      if key in self.executed and v['clause'] in ('bracket', 'alias',
+                                                  'string'):
         calib_bad.append((sig, payload))
       else:
         problems.append((sig, payload))
